@@ -28,8 +28,29 @@ pub fn run(opts: &Opts, rep: &Report) {
         _ => unreachable!(),
     };
     let budget = Budget::new(opts.budget_s);
+    // bare leaves as roots (a state whose init / next is directly a symbol or a literal, an output that is an input)
+    for (k, t) in leaf_roots().iter().enumerate() {
+        rep.add("evaluations", 1);
+        rep.add("leaf_roots", 1);
+        check_term(t, (1u64 << 60) + k as u64, rep);
+    }
     let st = stages(tier, opts.seed, true, true);
     run_stages(&st, rep, &budget, &|_| true, &|t, order| check_term(t, order, rep));
+}
+
+fn leaf_roots() -> Vec<T> {
+    let mut out = vec![];
+    for w in [1u32, 2, 8, 64, 65, 129] {
+        out.push(T::Sym("a".into(), Ty::Bv(w)));
+        out.push(T::Lit(pvcore::bv::Bv::zero(w)));
+        out.push(T::Lit(pvcore::bv::Bv::ones(w)));
+    }
+    for (iw, dw) in [(1u32, 1u32), (1, 2), (2, 1)] {
+        out.push(T::Sym("m".into(), Ty::Arr(iw, dw)));
+        out.push(T::AConst(iw, Box::new(T::Lit(pvcore::bv::Bv::zero(dw)))));
+        out.push(T::AConst(iw, Box::new(T::Sym("d".into(), Ty::Bv(dw)))));
+    }
+    out
 }
 
 pub fn replay(case: &Value, rep: &Report) {
